@@ -194,6 +194,12 @@ fn run_partition(x: &[u64], parts: &[Vec<Vec<usize>>], trace: bool) -> CaseResul
 /// One record per packet in a given order, one packet lost; afterwards a scripted responder
 /// answers exactly the question names the daemon asks (label-exact, like a real responder).
 fn run_loss(order: &[usize], lost: usize, shape: usize, deaf: u64, trace: bool) -> CaseResult {
+    run_loss_rb(order, lost, shape, deaf, 0, trace)
+}
+
+/// `rebrowse`: 0, or the application browses the type again that many ms after the packets arrived
+/// (inside the window of the daemon's follow-up questions); the newest channel is the one judged.
+fn run_loss_rb(order: &[usize], lost: usize, shape: usize, deaf: u64, rebrowse: u64, trace: bool) -> CaseResult {
     // deaf: the responder lets the first `deaf` rounds of questions about a name go unanswered (the daemon
     // asks up to three times)
     let mut res = CaseResult::default();
@@ -216,6 +222,14 @@ fn run_loss(order: &[usize], lost: usize, shape: usize, deaf: u64, trace: bool) 
     // responder loop
     let owned: Vec<Record> = i.all(120);
     let mut scanned = w.log.len();
+    let mut ch = ch;
+    if rebrowse > 0 {
+        w.run_until(t_start + rebrowse);
+        let rx = w.ds[0].h.browse("_t._tcp.local.").unwrap();
+        ch = w.add_browse(0, rx);
+        w.poke(0);
+        res.count("browsed_again_during_the_follow_ups", 1);
+    }
     let mut followups: Vec<(u64, Msg)> = vec![];
     let mut asked_at: std::collections::BTreeMap<String, Vec<u64>> = std::collections::BTreeMap::new();
     let end = w.now + 6000;
@@ -658,6 +672,18 @@ pub fn check(tier: &str) -> i32 {
     rep.require("burst-with-a-slow-client", "bursts_checked");
 
     let perms = permutations4();
+    let rdims = [24u64, 4, 2, 2];
+    let perms3 = perms.clone();
+    let perms4 = perms.clone();
+    let p3 = FnPart {
+        name: "single-loss-then-browse-again".into(),
+        rule: "the 24 one-record-per-packet orders x each single packet lost x the responder answering from the first or second ask; 200 / 700 ms after the packets - between the daemon's follow-up questions - the application browses the type again: the new channel must get ServiceFound and ServiceResolved".into(),
+        n: product(&rdims),
+        describe: Box::new(move |i| { let x = unrank(i, &rdims); format!("order {:?} lost index {} unanswered rounds {} browse again after {} ms", perms3[x[0] as usize], x[1], x[2], [200, 700][x[3] as usize]) }),
+        run: Box::new(move |i, tr| { let x = unrank(i, &rdims); run_loss_rb(&perms4[x[0] as usize], x[1] as usize, 0, x[2], [200, 700][x[3] as usize], tr) }),
+    };
+    rep.run_part(&p3, Duration::from_secs(300));
+    rep.require("single-loss-then-browse-again", "browsed_again_during_the_follow_ups");
     let ldims = [24u64, 4, nshapes, 3];
     let perms2 = perms.clone();
     let p2 = FnPart {
